@@ -71,9 +71,25 @@ impl DynProp for LibFuzzer {
                 l[i + key.len()..].trim().split(|c: char| !c.is_ascii_digit()).next()?.parse().ok()
             })
         };
-        let artifact = log
+        // libFuzzer also writes units that were merely slow on a loaded machine ("slow-unit-") and units
+        // that exceeded its memory limit ("oom-"): those say nothing about the property. Crashes
+        // ("crash-") and units that ran into its timeout of 20 minutes ("timeout-": a reader that hangs) do.
+        let written: Vec<String> = log
             .lines()
-            .find_map(|l| l.find("Test unit written to ").map(|i| l[i + "Test unit written to ".len()..].trim().to_string()));
+            .filter_map(|l| l.find("Test unit written to ").map(|i| l[i + "Test unit written to ".len()..].trim().to_string()))
+            .collect();
+        let is_verdict = |p: &String| {
+            let name = p.rsplit('/').next().unwrap_or("");
+            name.contains("-crash-") || name.contains("-timeout-")
+        };
+        let ignored: Vec<&String> = written.iter().filter(|p| !is_verdict(p)).collect();
+        if !ignored.is_empty() {
+            ctx.note(format!("{}: libFuzzer wrote {} slow-unit / oom artifacts (machine load), ignored", self.target, ignored.len()));
+            for p in ignored.iter() {
+                let _ = std::fs::remove_file(p);
+            }
+        }
+        let artifact = written.iter().find(|p| is_verdict(p)).cloned();
         if let Some(path) = artifact {
             let msg = log
                 .lines()
@@ -82,7 +98,7 @@ impl DynProp for LibFuzzer {
                 .to_string();
             let detail = log.lines().skip_while(|l| !l.contains("panicked at")).take(4).collect::<Vec<_>>().join(" | ");
             ctx.violation_at(self.target, json!({"artifact": path}), format!("libFuzzer target {}: {} {}", self.target, msg, detail), &path);
-        } else if !out.status.success() {
+        } else if !out.status.success() && ignored.is_empty() {
             eprintln!("HARNESS: cargo fuzz run {} failed without an artifact:\n{}", self.target, log.lines().rev().take(30).collect::<Vec<_>>().into_iter().rev().collect::<Vec<_>>().join("\n"));
             std::process::exit(2);
         }
